@@ -20,10 +20,10 @@ CONFIGS = {
 HOOK_DEFINE = "-DJEDI_PAIRING_VERIF"
 
 
-def sources(repo=None):
+def sources(repo=None, config="A"):
     repo = repo or REPO
     out = []
-    for d in ("src/core", "src/bls12_381", "src/wkdibe", "src/lqibe", "src/core/arch/x86_64"):
+    for d in ("src/core", "src/bls12_381", "src/wkdibe", "src/lqibe") + (("src/core/arch/x86_64",) if config == "A" else ()):
         out += sorted(glob.glob(os.path.join(repo, d, "*.cpp")))
     return out
 
@@ -42,7 +42,7 @@ def emit_ir(config="A", files=None, tag=None, extra=(), repo=None):
     tag = tag or ("ir_" + config)
     d = workdir(tag)
     if files is None:
-        srcs = sources(repo)
+        srcs = sources(repo, config)
     else:
         srcs = [os.path.join(repo, f) for f in files]
     procs = []
